@@ -23,6 +23,7 @@ type Sched struct {
 	Steps   int
 	MaxStep int
 	free    bool
+	frozen  bool
 	stop    bool
 	wake    chan struct{}
 	// OnStep, when set, is called with the released task before it runs.
@@ -105,6 +106,12 @@ func (s *Sched) Current() string {
 func (s *Sched) Yield(tag string) bool {
 	gid := curGID()
 	s.mu.Lock()
+	if s.frozen {
+		// step limit exceeded: nothing runs any more; the bubble then
+		// reports a deadlock, which ends the run as an internal error
+		s.mu.Unlock()
+		select {}
+	}
 	if s.free {
 		s.mu.Unlock()
 		return false
@@ -188,8 +195,10 @@ func (s *Sched) Step() bool {
 	}
 	if over {
 		s.Overrun = true
-		t.ch <- struct{}{}
-		s.Release()
+		s.mu.Lock()
+		s.frozen = true
+		s.stop = true
+		s.mu.Unlock()
 		return false
 	}
 	t.ch <- struct{}{}
